@@ -56,9 +56,10 @@ type Contract struct {
 	Opaque       bool // do not look into the body even without contract clauses
 	NoReturn     bool
 	Replay       string
-	Uses         []*Clause // lemma instances assumed at entry: name(args)
-	Nilable      bool      // the receiver may be nil (no non-nil assumption at entry)
-	LemmaList    []string  // if HasLemmaList: only these lemmas are added as axioms
+	Uses         []*Clause            // lemma instances assumed at entry: name(args)
+	AtCalls      map[string][]*Clause // callee name -> assertions about the call (arg0, arg1, ...: arguments, receiver first)
+	Nilable      bool                 // the receiver may be nil (no non-nil assumption at entry)
+	LemmaList    []string             // if HasLemmaList: only these lemmas are added as axioms
 	HasLemmaList bool
 	TypedHeap    bool // state well-typedness of unconstrained heap versions as axioms (needed for heap reads in specs)
 	File         string
@@ -94,6 +95,15 @@ type Lemma struct {
 	Line      int
 }
 
+// ImmutableGlobal: a package-level variable never assigned after initialisation, with its known contents.
+type ImmutableGlobal struct {
+	Pkg   string
+	Name  string
+	Bytes string // contents for []byte variables
+	File  string
+	Line  int
+}
+
 type GhostField struct {
 	Pkg   string
 	Owner string // type name
@@ -102,19 +112,20 @@ type GhostField struct {
 }
 
 type ContractSet struct {
-	Contracts map[string]*Contract // key: pkgpath + "::" + Key, or "extern::" + Key
-	Specs     map[string]*SpecFn
-	Lemmas    []*Lemma
-	Ghosts    map[string]*GhostField // Owner.Name
-	TypeInvs  map[string][]*Clause   // pkg::TypeName -> invariants (over `self`)
-	Files     []string
-	Errors    []string
+	Contracts  map[string]*Contract // key: pkgpath + "::" + Key, or "extern::" + Key
+	Specs      map[string]*SpecFn
+	Lemmas     []*Lemma
+	Ghosts     map[string]*GhostField      // Owner.Name
+	Immutables map[string]*ImmutableGlobal // pkg::name
+	TypeInvs   map[string][]*Clause        // pkg::TypeName -> invariants (over `self`)
+	Files      []string
+	Errors     []string
 }
 
 var clauseKeywords = map[string]bool{
 	"func": true, "spec": true, "extern": true, "iface": true, "closure": true, "callback": true, "requires": true, "ensures": true,
 	"loop": true, "modifies": true, "inline": true, "noinline": true, "trusted": true, "pure": true, "lemma": true,
-	"axiom": true, "ghost": true, "type": true, "opaque": true, "noreturn": true, "replay": true, "recspec": true, "uspec": true, "uses": true, "nilable": true, "typedheap": true, "lemmas": true,
+	"axiom": true, "ghost": true, "type": true, "opaque": true, "noreturn": true, "replay": true, "recspec": true, "uspec": true, "uses": true, "nilable": true, "typedheap": true, "lemmas": true, "immutable": true, "atcall": true,
 }
 
 var propsRe = regexp.MustCompile(`^\[((?:C[0-9]+)(?:\s*,\s*C[0-9]+)*)\]\s*`)
@@ -381,6 +392,40 @@ func (cs *ContractSet) LoadFile(path, pkgPath string) {
 			if cur != nil {
 				cur.TypedHeap = true
 			}
+		case "immutable":
+			// immutable name "contents"
+			f := strings.SplitN(rest, " ", 2)
+			if len(f) != 2 {
+				cs.errf(path, ll.line, "bad immutable declaration")
+				continue
+			}
+			s, err := strconv.Unquote(strings.TrimSpace(f[1]))
+			if err != nil {
+				cs.errf(path, ll.line, "bad immutable contents")
+				continue
+			}
+			cs.Immutables[pkgPath+"::"+f[0]] = &ImmutableGlobal{Pkg: pkgPath, Name: f[0], Bytes: s, File: path, Line: ll.line}
+			cur = nil
+		case "atcall":
+			// atcall callee @label expr     (arg0.. are the call's arguments, receiver first)
+			if cur == nil {
+				cs.errf(path, ll.line, "atcall outside a contract")
+				continue
+			}
+			f := strings.SplitN(rest, " ", 2)
+			if len(f) != 2 {
+				cs.errf(path, ll.line, "bad atcall clause")
+				continue
+			}
+			if cl := mkClause("atcall", f[1]); cl != nil {
+				if cur.AtCalls == nil {
+					cur.AtCalls = map[string][]*Clause{}
+				}
+				if cl.Label == "" {
+					cl.Label = fmt.Sprintf("a%d", len(cur.AtCalls[f[0]])+1)
+				}
+				cur.AtCalls[f[0]] = append(cur.AtCalls[f[0]], cl)
+			}
 		case "lemmas":
 			if cur != nil {
 				cur.HasLemmaList = true
@@ -589,7 +634,7 @@ func splitTop(s string) []string {
 }
 
 func NewContractSet() *ContractSet {
-	return &ContractSet{Contracts: map[string]*Contract{}, Specs: map[string]*SpecFn{}, Ghosts: map[string]*GhostField{}, TypeInvs: map[string][]*Clause{}}
+	return &ContractSet{Contracts: map[string]*Contract{}, Specs: map[string]*SpecFn{}, Ghosts: map[string]*GhostField{}, Immutables: map[string]*ImmutableGlobal{}, TypeInvs: map[string][]*Clause{}}
 }
 
 // LoadContracts reads zz_verif_contracts*.go of each package dir.
